@@ -1,9 +1,10 @@
 (** MoveStepsProofs.v — the OS-call sequence of LocalFileSystem.Move ([MoveSteps.move_steps])
-    computes the single step of [DavServer.do_move]; a rename the OS refuses changes nothing
-    when the destination is new, and loses the old destination when there was one (the
-    sequence RemoveAll; Rename is not atomic — known finding C02 move-rename-fault). *)
+    computes, at every path, the single step of [DavServer.do_move]; a rename the OS refuses
+    leaves the very tree that was there (Leibniz), for a new and for an existing destination
+    alike.  The sequence before the repair (RemoveAll; Rename) lost the old destination:
+    [move_steps_old], kept with its refutation. *)
 From GW Require Import Base GoPath Fs DavServer Rfc4918 FsProofs DavRefine UploadSteps UploadStepsProofs
-  CopySteps CopyStepsProofs CopyTempProofs RelocProofs MoveSteps.
+  CopySteps CopyStepsProofs CopyTempProofs RelocProofs SortedProofs MoveSteps.
 Local Open Scope list_scope.
 
 (** what [copy_move_checks] has established when it lets the request through *)
@@ -25,18 +26,181 @@ Proof.
   - inversion H; subst. rewrite Ee. auto.
 Qed.
 
-(** The sequence of OS calls is the one step of the model: whenever the checks pass and
-    the step succeeds, RemoveAll(dst) (if there is a destination) followed by
-    Rename(src, dst) ends in the very state [do_move] computes. *)
-Theorem move_is_steps root sb r dst ow ss n ds created sb' :
+(** * Lists: taking a binding out of a sorted listing and putting it back *)
+Lemma str_ltb_asym a b : str_ltb a b = true -> str_ltb b a = false.
+Proof.
+  unfold str_ltb. rewrite (String.compare_antisym b a).
+  destruct (String.compare a b); cbn; congruence.
+Qed.
+
+Lemma str_ltb_irrefl a : str_ltb a a = false.
+Proof. destruct (str_ltb a a) eqn:E; [|reflexivity]. pose proof (str_ltb_asym _ _ E). congruence. Qed.
+
+Lemma below_assoc k' k v l : below k' l = true -> assoc k l = Some v -> str_ltb k' k = true.
+Proof.
+  induction l as [|[k2 v2] r IH]; cbn; intros Hb Ha; [discriminate|].
+  apply andb_prop in Hb. destruct Hb as [H1 H2].
+  destruct (String.eqb k2 k) eqn:E.
+  - apply String.eqb_eq in E. subst. exact H1.
+  - apply IH; assumption.
+Qed.
+
+Lemma del_below k l : below k l = true -> del_assoc k l = l.
+Proof.
+  induction l as [|[k2 v2] r IH]; cbn; intros Hb; [reflexivity|].
+  apply andb_prop in Hb. destruct Hb as [H1 H2].
+  destruct (String.eqb k2 k) eqn:E.
+  - apply String.eqb_eq in E. subst. rewrite str_ltb_irrefl in H1. discriminate.
+  - cbn. f_equal. apply IH. exact H2.
+Qed.
+
+Lemma ins_below k v l : below k l = true -> ins_assoc k v l = (k, v) :: l.
+Proof.
+  destruct l as [|[k2 v2] r]; cbn; intros Hb; [reflexivity|].
+  apply andb_prop in Hb. destruct Hb as [H1 _]. rewrite H1. reflexivity.
+Qed.
+
+Lemma ins_del_sorted k v l :
+  keys_sorted l = true -> assoc k l = Some v -> ins_assoc k v (del_assoc k l) = l.
+Proof.
+  induction l as [|[k2 v2] r IH]; intros Hs Ha; [discriminate|].
+  rewrite keys_sorted_cons in Hs. apply andb_prop in Hs. destruct Hs as [Hb Hs].
+  cbn [assoc] in Ha. cbn [del_assoc filter fst].
+  destruct (String.eqb k2 k) eqn:E.
+  - apply String.eqb_eq in E. subst k2. inversion Ha; subst v2. cbn [negb].
+    fold (del_assoc k r). rewrite del_below by exact Hb. apply ins_below. exact Hb.
+  - cbn [negb]. fold (del_assoc k r). cbn [ins_assoc].
+    pose proof (below_assoc _ _ _ _ Hb Ha) as Hlt.
+    rewrite (str_ltb_asym _ _ Hlt). rewrite IH by assumption. reflexivity.
+Qed.
+
+(** * Trees: unmapping a resource and mapping it again gives the very same tree *)
+Lemma seto_remo_back p : forall on n,
+  sorted_otree on = true -> p <> [] -> geto on p = Some n -> seto (remo on p) p n = on.
+Proof.
+  induction p as [|s r IH]; intros on n Hso Hne Hg; [congruence|].
+  destruct on as [[c m|ch]|]; try (cbn in Hg; discriminate).
+  cbn [geto] in Hg. cbn [remo].
+  destruct (assoc s ch) as [c0|] eqn:Ea; [|rewrite geto_None in Hg; discriminate].
+  cbn [sorted_otree] in Hso. apply sorted_dir_iff in Hso. destruct Hso as [Hks Hkd].
+  destruct r as [|s2 r2].
+  - cbn in Hg. inversion Hg; subst c0. cbn [remo].
+    rewrite seto_cons. rewrite assoc_del_same. cbn [seto].
+    unfold set_assoc. rewrite assoc_del_same. rewrite ins_del_sorted by assumption. reflexivity.
+  - destruct (remo (Some c0) (s2 :: r2)) as [c'|] eqn:Er.
+    2:{ apply remo_some_none in Er. discriminate. }
+    rewrite seto_cons. rewrite assoc_set_same. rewrite <- Er.
+    rewrite (IH (Some c0) n); [| cbn [sorted_otree]; eapply sorted_kids_assoc; eassumption | congruence | exact Hg].
+    rewrite set_set, set_back by exact Ea. reflexivity.
+Qed.
+
+Lemma not_prefix_parent dp tmpp : is_prefix dp tmpp = false -> is_prefix dp (parent tmpp) = false.
+Proof.
+  intros H. destruct (is_prefix dp (parent tmpp)) eqn:E; [|reflexivity].
+  rewrite (is_prefix_trans dp (parent tmpp) tmpp E (is_prefix_removelast tmpp)) in H. discriminate.
+Qed.
+
+(** setting the old destination aside and putting it back is the identity *)
+Lemma aside_and_back s dp tmpp old :
+  sorted_otree s = true -> dp <> [] -> tmpp <> [] ->
+  geto s dp = Some old -> geto s tmpp = None ->
+  is_prefix dp tmpp = false -> is_prefix tmpp dp = false ->
+  is_dir (geto s (parent tmpp)) = true ->
+  exists s1, rename_step s dp tmpp = Some (Some s1) /\ move_back (Some s1) tmpp dp = (s, false).
+Proof.
+  intros Hso Hd Ht Hg Hfresh P1 P2 Hdir.
+  assert (Hd' : is_dir (geto (remo s dp) (removelast tmpp)) = true).
+  { change (removelast tmpp) with (parent tmpp).
+    rewrite is_dir_remo_other by (apply not_prefix_parent; exact P1). exact Hdir. }
+  destruct (seto_ok tmpp (remo s dp) old Ht Hd') as [s1 Hs1].
+  exists s1. split.
+  - unfold rename_step. rewrite Hg, Hs1. reflexivity.
+  - assert (Hf' : geto (remo s dp) tmpp = None) by (rewrite geto_remo_other by assumption; exact Hfresh).
+    unfold move_back, rename_step. rewrite (geto_seto_self _ _ _ _ Hs1).
+    rewrite (remo_seto_fresh tmpp (remo s dp) old s1 Ht Hf' Hs1).
+    rewrite seto_remo_back by assumption.
+    destruct s as [t|]; [reflexivity|]. rewrite geto_None in Hg. discriminate.
+Qed.
+
+(** C02 for MOVE under the fault: whenever the OS refuses the rename of the source, the
+    tree afterwards is EQUAL to the tree before — the old destination included. *)
+Theorem move_fault_restores s sp dp tmpp :
+  sorted_otree s = true -> dp <> [] -> tmpp <> [] ->
+  geto s tmpp = None ->
+  is_prefix dp tmpp = false -> is_prefix tmpp dp = false ->
+  is_dir (geto s (parent tmpp)) = true ->
+  move_steps s sp dp tmpp true = (s, false).
+Proof.
+  intros Hso Hd Ht Hfresh P1 P2 Hdir. unfold move_steps.
+  destruct (geto s dp) as [old|] eqn:Hg; cbn [exists_]; [|reflexivity].
+  destruct (aside_and_back s dp tmpp old Hso Hd Ht Hg Hfresh P1 P2 Hdir) as (s1 & R1 & R2).
+  rewrite R1. exact R2.
+Qed.
+
+(** The temporary name Move uses — a new name in the destination's collection — meets the
+    hypotheses about [tmpp]. *)
+Lemma sibling_incomparable dp tmp s :
+  dp <> [] -> geto s dp <> None -> geto s (parent dp ++ [tmp]) = None ->
+  is_prefix dp (parent dp ++ [tmp]) = false /\ is_prefix (parent dp ++ [tmp]) dp = false.
+Proof.
+  intros Hne Hg Hf.
+  assert (Hlen : List.length (parent dp ++ [tmp]) = List.length dp).
+  { pose proof (app_removelast_last ""%string Hne) as H. apply (f_equal (@List.length _)) in H.
+    rewrite app_length in H. cbn in H. unfold parent. rewrite app_length. cbn. lia. }
+  split.
+  - destruct (is_prefix dp (parent dp ++ [tmp])) eqn:E; [|reflexivity]. exfalso.
+    apply is_prefix_spec in E. destruct E as [suf E]. rewrite E, app_length in Hlen.
+    destruct suf as [|x0 suf0]; [|cbn [List.length] in Hlen; lia]. rewrite app_nil_r in E. rewrite E in Hf. congruence.
+  - destruct (is_prefix (parent dp ++ [tmp]) dp) eqn:E; [|reflexivity]. exfalso.
+    apply is_prefix_spec in E. destruct E as [suf E].
+    pose proof (f_equal (@List.length _) E) as EL. rewrite app_length in EL.
+    destruct suf as [|x0 suf0]; [|cbn [List.length] in EL; lia].
+    rewrite app_nil_r in E. rewrite <- E in Hf. congruence.
+Qed.
+
+Theorem move_fault_restores_sibling s sp dp tmp :
+  sorted_otree s = true -> dp <> [] -> geto s dp <> None ->
+  geto s (parent dp ++ [tmp]) = None ->
+  move_steps s sp dp (parent dp ++ [tmp]) true = (s, false).
+Proof.
+  intros Hso Hd Hg Hf.
+  destruct (sibling_incomparable dp tmp s Hd Hg Hf) as [P1 P2].
+  apply move_fault_restores; try assumption.
+  - destruct (parent dp); discriminate.
+  - unfold parent. rewrite removelast_last.
+    destruct (geto s dp) as [old|] eqn:E; [|congruence].
+    rewrite (app_removelast_last ""%string Hd) in E. rewrite geto_app in E.
+    destruct (geto s (removelast dp)) as [[c m|ch]|]; cbn in E; try discriminate; reflexivity.
+Qed.
+
+(** * The sequence without a fault is the one step of the model *)
+
+(** New destination: one rename; the state is the very state [do_move] computes. *)
+Theorem move_is_steps_new root sb r dst ow ss n ds sb' tmpp :
+  copy_move_checks root sb (rpath r) dst ow = GOk (ss, n, ds, true) ->
+  seto (remo (remo sb (hp root ds)) (hp root ss)) (hp root ds) n = Some sb' ->
+  move_steps sb (hp root ss) (hp root ds) tmpp false = (Some sb', true) /\
+  fst (do_move root sb r dst ow) = Some sb'.
+Proof.
+  intros Hc Hs. destruct (checks_ok _ _ _ _ _ _ _ _ _ Hc) as (P1 & P2 & Hg & Hcr).
+  assert (He : exists_ (geto sb (hp root ds)) = false) by (destruct (exists_ (geto sb (hp root ds))); [discriminate|reflexivity]).
+  assert (Hn : geto sb (hp root ds) = None) by (destruct (geto sb (hp root ds)); [discriminate|reflexivity]).
+  rewrite (remo_absent _ _ Hn) in Hs.
+  split.
+  - unfold move_steps, rename_step. rewrite He, Hg, Hs. reflexivity.
+  - unfold do_move. rewrite Hc. rewrite (remo_absent _ _ Hn). rewrite Hs. reflexivity.
+Qed.
+
+(** The sequence before the repair was the one step too (when nothing failed). *)
+Theorem move_old_is_steps root sb r dst ow ss n ds created sb' :
   copy_move_checks root sb (rpath r) dst ow = GOk (ss, n, ds, created) ->
   seto (remo (remo sb (hp root ds)) (hp root ss)) (hp root ds) n = Some sb' ->
-  move_steps sb (hp root ss) (hp root ds) false = (Some sb', true) /\
+  move_steps_old sb (hp root ss) (hp root ds) false = (Some sb', true) /\
   fst (do_move root sb r dst ow) = Some sb'.
 Proof.
   intros Hc Hs. destruct (checks_ok _ _ _ _ _ _ _ _ _ Hc) as (P1 & P2 & Hg & _).
   split.
-  - unfold move_steps, rename_step.
+  - unfold move_steps_old, rename_step.
     assert (H1 : (if exists_ (geto sb (hp root ds)) then remo sb (hp root ds) else sb) = remo sb (hp root ds)).
     { destruct (geto sb (hp root ds)) eqn:E; cbn [exists_]; [reflexivity|].
       symmetry. apply remo_absent. exact E. }
@@ -46,34 +210,37 @@ Proof.
   - unfold do_move. rewrite Hc, Hs. reflexivity.
 Qed.
 
-(** A refused rename onto a new name changes nothing at all. *)
-Theorem move_fault_new_destination s sp dp :
-  geto s dp = None -> move_steps s sp dp true = (s, false).
-Proof. intros H. unfold move_steps. rewrite H. reflexivity. Qed.
+(** * What the repair was about: the old sequence under the fault *)
+Theorem move_old_fault_existing_destination s sp dp :
+  exists_ (geto s dp) = true -> move_steps_old s sp dp true = (remo s dp, false).
+Proof. intros H. unfold move_steps_old. rewrite H. reflexivity. Qed.
 
-(** A refused rename onto an existing destination: the tree afterwards is the tree before
-    without the destination — for every tree, source and destination. *)
-Theorem move_fault_existing_destination s sp dp :
-  exists_ (geto s dp) = true -> move_steps s sp dp true = (remo s dp, false).
-Proof. intros H. unfold move_steps. rewrite H. reflexivity. Qed.
-
-(** Hence C02 does not hold of the sequence under that fault: a witness on which the
-    checks pass, the rename is refused and the stored destination is gone. *)
 Definition mv_tree : option node :=
   Some (Dir [("a", Dir [("src", File "new" 1%N)]); ("dst", File "precious" 1%N)])%string.
 
-Theorem move_rename_fault_loses_destination :
+(** C02's statement was false of the old sequence: the checks pass, the rename is refused,
+    Move reports failure and the stored destination is gone. *)
+Theorem move_old_rename_fault_loses_destination :
   exists s sp dp,
     geto s sp <> None /\ geto s dp <> None /\ is_prefix sp dp = false /\ is_prefix dp sp = false /\
     is_dir (geto s (parent dp)) = true /\
-    snd (move_steps s sp dp true) = false /\ fst (move_steps s sp dp true) <> s.
+    snd (move_steps_old s sp dp true) = false /\ fst (move_steps_old s sp dp true) <> s.
 Proof.
   exists mv_tree, ["a"; "src"]%string, ["dst"]%string.
   repeat split; try (vm_compute; congruence).
 Qed.
 
-(** The premises of [move_is_steps] are satisfiable: a MOVE onto an existing file. *)
-Example move_is_steps_nonvacuous :
-  exists sb', copy_move_checks [] mv_tree "/a/src"%string "/dst"%string true = GOk (["a"; "src"], File "new" 1%N, ["dst"], false)%string /\
-    seto (remo (remo mv_tree (hp [] ["dst"%string])) (hp [] ["a"; "src"]%string)) (hp [] ["dst"%string]) (File "new" 1%N) = Some sb'.
-Proof. eexists. split; vm_compute; reflexivity. Qed.
+(** ... and on the same witness the repaired sequence restores the tree; the hypotheses of
+    [move_fault_restores_sibling] are satisfiable. *)
+Example move_fault_restores_nonvacuous :
+  sorted_otree mv_tree = true /\ geto mv_tree ["dst"%string] <> None /\
+  geto mv_tree (parent ["dst"%string] ++ [".webdav-upload-1"%string]) = None /\
+  move_steps mv_tree ["a"; "src"]%string ["dst"%string] [".webdav-upload-1"%string] true = (mv_tree, false).
+Proof. repeat split; try (vm_compute; congruence). Qed.
+
+(** A complete MOVE onto an existing file on the same witness: the source is at the
+    destination, the source and the temporary name are gone. *)
+Example move_steps_success_example :
+  move_steps mv_tree ["a"; "src"]%string ["dst"%string] [".webdav-upload-1"%string] false
+  = (Some (Dir [("a", Dir []); ("dst", File "new" 1%N)])%string, true).
+Proof. vm_compute. reflexivity. Qed.
